@@ -27,11 +27,22 @@ def facts(repo):
         raise TranslationError("worker_run: the loop does not start with `i, function, args, kwargs = task_queue.get()`")
     tries = [s for s in body if isinstance(s, ast.Try)]
     out["worker_catches"] = False
-    if len(tries) == 1 and len(tries[0].handlers) == 1 and tries[0].handlers[0].type is not None and src_of(tries[0].handlers[0].type) in ("Exception", "BaseException"):
+    def catches_exception(t):
+        # `except Exception`, `except BaseException`, or a tuple that contains one of them
+        if t is None:
+            return False
+        names = [src_of(e) for e in t.elts] if isinstance(t, ast.Tuple) else [src_of(t)]
+        return "Exception" in names or "BaseException" in names
+    if len(tries) == 1 and len(tries[0].handlers) == 1 and catches_exception(tries[0].handlers[0].type):
         h = tries[0].handlers[0]
         assigns = [s for s in h.body if isinstance(s, ast.Assign) and src_of(s.targets[0]) == "result"]
         if assigns and src_of(assigns[-1].value) == f"_WorkerException({h.name})" and not any(isinstance(x, (ast.Raise, ast.Return, ast.Break)) for s in h.body for x in ast.walk(s)):
             out["worker_catches"] = True
+    out["worker_catches_refine_timeout"] = False
+    if out["worker_catches"]:
+        t = tries[0].handlers[0].type
+        names = [src_of(e) for e in t.elts] if isinstance(t, ast.Tuple) else [src_of(t)]
+        out["worker_catches_refine_timeout"] = "BaseException" in names or any(n.endswith("FunctionTimedOut") for n in names)
     last = body[-1]
     out["worker_always_puts"] = isinstance(last, ast.Expr) and src_of(last.value) == "result_queue.put((i, result))" and not any(
         isinstance(x, (ast.Break, ast.Return, ast.Continue)) for s in body for x in ast.walk(s))
@@ -72,7 +83,7 @@ def emit(repo):
     f = facts(repo)
     b = lambda v: "true" if v else "false"
     L = ["(* GENERATED by /verif/translate/parmap.py from hypnotoad/utils/parallel_map.py -- do not edit. *)", "From Coq Require Import Bool.", ""]
-    for k in ("worker_catches", "worker_always_puts", "tasks_put_in_order", "results_stored_by_index", "receives_n_results", "first_error_in_index_order", "queues_are_multiprocessing"):
+    for k in ("worker_catches", "worker_catches_refine_timeout", "worker_always_puts", "tasks_put_in_order", "results_stored_by_index", "receives_n_results", "first_error_in_index_order", "queues_are_multiprocessing"):
         L.append(f"Definition PM_{k} : bool := {b(f[k])}.")
     L.append("(* the exception wrapper tests transportability with the serializer the result queue uses (the standard pickle module) *)")
     L.append(f"Definition PM_check_is_transport_serializer : bool := {b(f['check_serializer'] == 'pickle' and f['queues_are_multiprocessing'])}.")
